@@ -265,6 +265,7 @@ func (c *tunnelChannel) Invoke(ctx context.Context, methodName string, req, resp
 	if err != nil {
 		return err
 	}
+	verifYield("client.invoked")
 	if err := str.SendMsg(req); err != nil {
 		return err
 	}
